@@ -153,5 +153,8 @@ SPEC = dict(
            'execute(item) through the local function pointer -> event stub EV_execute (the continuation may destroy the item and schedule further items)',
            'scope_guard in run_impl -> its body placed at the function end; const bool& shouldStop -> pointer',
            '++x / --x on std::atomic<int> enqueued_ -> fetch_add(1) / fetch_sub(1) (spec-level regex: rule missing from the global table)',
-           'write(eventfd) -> event stub; ~intrusive_queue assertions (moved-from locals are empty)'],
+           'write(eventfd) -> event stub; ~intrusive_queue assertions (moved-from locals are empty)',
+           'acquire_completion_queue_items: locals `completions` (event array) and `completionQueue` lifted to statics of the same name shared by the loop segments; '
+           'epoll_wait / read(eventfd) / read(timerfd) / currentDueTime_.reset() -> event stubs; throw_(std::system_error) -> stub + return (exception propagation out of run_impl dropped); '
+           'the for-loop over the returned events is verified as one dispatch step for an arbitrary index (cut point), its index arithmetic (i < count <= 256) by the requires of that step'],
 )
